@@ -1,5 +1,6 @@
 import Driver.Common
-import Logrange.Model.PersistCodec
+import Logrange.Model.PersistJson
+import Logrange.Model.PersistReach
 /-! Model driver for C07 (stored state survives restart / crash-shaped disks). Stateful; batch or `-i`.
 
 Byte strings are hex (`-` = empty). Requests (server must be "up" for the operations of a running server):
@@ -20,6 +21,11 @@ Byte strings are hex (`-` = empty). Requests (server must be "up" for the operat
 * `parts` · `pipes` (→ `name|tags|flt,…`) · `ppos <name>` (→ `src:cid:idx,…` sorted) · `fname <name>` (→ hex of `pipeFileName`)
 * `steps.stop`                             → the step list of a graceful shutdown's saves · `savepipes` — run `savePipes` once more
 * `steps.part <tags> <src>`                → the step list of that save, e.g. `rename:tindex.dat:tindex.bak truncate:tindex.dat append:tindex.dat`
+* `steps.mkpipe <n> <t> <f>` · `cutmkpipe <n> <t> <f> <k> <len>` · `steps.rmpipe <n>` · `cutrmpipe <n> <k> <len>`
+                                           step list of / crash inside the metadata update of CREATE / DELETE PIPE (`opSteps`)
+* `inv`                                    → `1` when the running server's memory is consistent with its disk (`invB`, the
+                                           decidable form of the proved invariant `Persist.Inv`), `0` otherwise, `down`
+* `sanitize <hex>`                         → hex of `sanitize` (a Go string after `json.Marshal` + `json.Unmarshal`)
 -/
 open Go Driver Logrange.Persist
 
@@ -32,7 +38,8 @@ structure DS where
   everColl : Bool   -- a pipe whose position file is the registry file exists or existed in this history (F33's class)
   slots : List (String × Option Bytes)
 
-def K : Codecs := stdCodecs
+/-- a concrete codec that satisfies the contract (`stdCodecs_laws`) behind `encoding/json`'s treatment of strings -/
+def K : Codecs := jsonish stdCodecs
 def emptyMem : Mem := ⟨[], [], []⟩
 def DS.init : DS := ⟨⟨emptyMem, Disk.fresh⟩, emptyMem, false, false, [], false, []⟩
 
@@ -90,8 +97,13 @@ def stepName : Step → String
   | .remove p => s!"remove:{pathName p}"
   | .link a b => s!"link:{pathName a}:{pathName b}"
 
+/-- class of F-C07-901/902: a tag line or a pipe's name / conditions held by the server that ran before is not valid UTF-8 -/
+def utf8Cls (m : Mem) : Bool :=
+  m.tmap.any (fun e => changedByJson e.1) ||
+    m.pipes.any (fun p => changedByJson p.cfg.name || changedByJson p.cfg.tags || changedByJson p.cfg.flt)
+
 def clsOf (d : DS) : String :=
-  s!"cls=collision:{b2s (nameCollision d.pre.pipes || d.everColl)},defslost:{b2s (pipeDefsNotOnDisk K d.pre d.srv.disk.files)},cut:{b2s d.cutIn}"
+  s!"cls=collision:{b2s (nameCollision d.pre.pipes || d.everColl)},defslost:{b2s (pipeDefsNotOnDisk K d.pre d.srv.disk.files)},cut:{b2s d.cutIn},utf8:{b2s (utf8Cls d.pre)}"
 
 def withFiles (d : DS) (f : Files) : DS := { d with srv := { d.srv with disk := { d.srv.disk with files := f } } }
 
@@ -137,6 +149,18 @@ def dstep (d : DS) (toks : List String) : DS × String :=
   | ["steps.part", tg, src] =>
     let m := s.mem.tmap ++ [(unhex tg, unhex src)]
     (d, " ".intercalate ((tindexSaveSteps K.tidx s.disk.files m).map stepName))
+  | ["steps.mkpipe", n, t, f] => (d, " ".intercalate ((opSteps K s (.createPipe ⟨unhex n, unhex t, unhex f⟩)).map stepName))
+  | ["steps.rmpipe", n] => (d, " ".intercalate ((opSteps K s (.deletePipe (unhex n))).map stepName))
+  | ["cutmkpipe", n, t, f, k, cls] =>
+    if !d.up then (d, "down") else
+    let steps := opSteps K s (.createPipe ⟨unhex n, unhex t, unhex f⟩)
+    (crashed d (diskAt s.disk.files steps (mkCut steps k.toNat! cls)) false, "ok")
+  | ["cutrmpipe", n, k, cls] =>
+    if !d.up then (d, "down") else
+    let steps := opSteps K s (.deletePipe (unhex n))
+    (crashed d (diskAt s.disk.files steps (mkCut steps k.toNat! cls)) false, "ok")
+  | ["inv"] => if d.up then (d, b2s (invB K (fun _ => true) s)) else (d, "down")
+  | ["sanitize", x] => (d, hex (sanitize (unhex x)))
   | ["cutstop", k, cls] =>
     if !d.up then (d, "down") else
     let steps := shutdownSteps K s.mem
